@@ -20,6 +20,7 @@
 using namespace sim;
 
 static void guardHostDepthReset();
+static uint64_t threadsCreatedCount = 0;
 namespace {
 struct Mx { bool inited, destroyed, recursive; int owner, depth; std::vector<int> waiters; };
 struct Cv { bool destroyed; std::vector<int> waiters; };
@@ -32,7 +33,7 @@ std::vector<Th*> ths;
 uint64_t cond_after_destroy = 0;
 int nproc_knob = 4;
 
-void resetSync() { guardHostDepthReset(); mxs.clear(); cvs.clear(); sms.clear(); for (Th* t : ths) delete t; ths.clear(); cond_after_destroy = 0; }
+void resetSync() { threadsCreatedCount = 0; guardHostDepthReset(); mxs.clear(); cvs.clear(); sms.clear(); for (Th* t : ths) delete t; ths.clear(); cond_after_destroy = 0; }
 struct Reg { Reg() { addResetHook(resetSync); } } reg;
 
 struct HostG { HostG() { g_host_depth_export++; } ~HostG() { g_host_depth_export--; } };
@@ -79,7 +80,7 @@ int64_t tsToMono(const struct timespec* ts, clockid_t clk) {
 }
 }
 
-namespace sim { void setProcessorCount(int n) { nproc_knob = n; } uint64_t condOpsAfterDestroy() { return cond_after_destroy; } }
+namespace sim { uint64_t threadsCreated() { return threadsCreatedCount; } void setProcessorCount(int n) { nproc_knob = n; } uint64_t condOpsAfterDestroy() { return cond_after_destroy; } }
 
 extern "C" {
 
@@ -234,6 +235,7 @@ static void threadMain(void* a) { Th* t = (Th*)a; t->ret = t->fn(t->arg); }
 int __wrap_pthread_create(pthread_t* out, const pthread_attr_t* attr, void* (*fn)(void*), void* arg) {
   if (!inTask()) return pthread_create(out, attr, fn, arg);
   HostG h; chargeCall(); yieldSync();
+  threadsCreatedCount++;
   Th* t = new Th{fn, arg, 0, 0, false};
   ths.push_back(t);
   t->task = spawn(threadMain, t, "thread");
